@@ -3,6 +3,7 @@
 from __future__ import annotations
 
 import ast
+import copy
 import dataclasses
 import inspect
 from collections import Counter, defaultdict
@@ -130,7 +131,8 @@ class _EvalTransformer(ast.NodeTransformer):
                             ast.Expr(
                                 ast.Call(
                                     ast.Name(id="offdiag", ctx=ast.Load()),
-                                    [node.body[0].value],
+                                    # The two branches are transformed independently.
+                                    [copy.deepcopy(node.body[0].value)],
                                     [],
                                 )
                             )
@@ -387,7 +389,7 @@ class _FunctionTransformer(ast.NodeTransformer):
             *(
                 _LiteralTransformer._to_series(arg)
                 if (isinstance(arg, ast.Constant) and isinstance(arg.value, str))
-                else arg
+                else self.visit(arg)  # Function calls may be nested in expressions.
                 for arg in node.args
             ),
             ast.Name(id="index", ctx=ast.Load()),
